@@ -51,6 +51,8 @@ func (o mpOp) String() string {
 		return fmt.Sprintf("%s %s ?%s", o.kind, o.k, o.desc)
 	case "initiate-nokey":
 		return "initiate without a key"
+	case "recreate-bucket":
+		return "delete the bucket and create it again"
 	}
 	return o.kind
 }
@@ -75,6 +77,7 @@ type mpSys struct {
 	last        string
 	burned      bool
 	searchInits int
+	recreated   bool
 }
 
 const mpMetaKey = "x-amz-meta-up"
@@ -122,7 +125,7 @@ func newMPSys(cfg drv.Config, u *mpUniverse, prop string) (*mpSys, error) {
 
 func (s *mpSys) Close() { s.w.Close() }
 func (s *mpSys) Key() string {
-	return drv.KeyOf(s.w.Snapshot(drv.SnapOpts{Uploads: true, Versions: s.w.Cfg.Kind == drv.Mem}) + fmt.Sprintf("inits=%d", min(s.inits, 1)) + "MODEL " + s.renderModel())
+	return drv.KeyOf(s.w.Snapshot(drv.SnapOpts{Uploads: true, Versions: s.w.Cfg.Kind == drv.Mem}) + fmt.Sprintf("inits=%d recreated=%v", min(s.inits, 1), s.recreated) + "MODEL " + s.renderModel())
 }
 
 func min(a, b int) int {
@@ -289,6 +292,10 @@ func (s *mpSys) Ops() []engine.Op {
 	for _, k := range s.u.keys {
 		ops = append(ops, mpOp{kind: "put", k: k, body: "P"})
 	}
+	// the bucket is deleted and created again: its pending uploads went with it
+	if !s.w.Cfg.Kind.IsSingle() && len(s.m.Objects) == 0 && len(s.m.Uploads) > 0 && !s.recreated {
+		ops = append(ops, mpOp{kind: "recreate-bucket"})
+	}
 	// multipart requests whose upload id names no upload: empty, or in a pair the
 	// query parser cannot read (a bad escape, a raw ';'), or given twice
 	if s.m.Objects[s.u.keys[0]] != nil {
@@ -356,6 +363,21 @@ func (s *mpSys) apply(op engine.Op) (string, *engine.Violation) {
 		s.searchInits++
 		s.m.Initiate(id, o.k, meta)
 		return "200", nil
+	case "recreate-bucket":
+		r := s.w.Do(drv.Req{Method: "DELETE", Path: "/" + s.bucket})
+		if r.Status != 204 || r.Panic != "" {
+			return respSig(r), &engine.Violation{Sig: "FOREIGN", Msg: "delete of a bucket without objects: " + r.Short()}
+		}
+		if r = s.w.Do(drv.Req{Method: "PUT", Path: "/" + s.bucket}); r.Status != 200 {
+			return respSig(r), &engine.Violation{Sig: "FOREIGN", Msg: "create bucket: " + r.Short()}
+		}
+		for _, u := range s.m.Uploads {
+			s.m.Closed = append(s.m.Closed, u.ID)
+		}
+		s.m.Uploads = nil
+		s.inits = 0 // the new bucket has not had an upload initiated
+		s.recreated = true
+		return "recreated", nil
 	case "initiate-nokey":
 		// POST /bucket?uploads: an upload needs the key of the object it will become
 		r := s.w.Do(drv.Req{Method: "POST", Path: "/" + s.bucket, Query: "uploads"})
